@@ -221,6 +221,11 @@ func (g *Gen) Next() Call {
 		if n > 0 {
 			g.sized[p] = true
 		}
+		if g.R.Intn(4) == 0 {
+			for k := range writes {
+				writes[k].Method = "hwritestr"
+			}
+		}
 		g.pending = append(writes, Call{"hclose", []string{id}})
 		if g.P.Wild && g.R.Intn(10) == 0 {
 			g.pending = append(append([]Call{}, writes...), Call{"hsync", []string{id}}, Call{"hclose", []string{id}})
